@@ -15,6 +15,9 @@ checks = {
  "C03": dict(cat="exploration", tech="deterministic simulation; raw-frame HTTP/2 client; prefix-set oracle from an independent fingerprint model",
    text="A scripted raw-frame client (own frame codec) drives the real forked HTTP/2 server through TLS; the controller decides how the frames reach the server relative to the handlers (yielding injector, fences in readFrames/sendServeMsg); X-HTTP2-Fingerprint at the back-end must equal the reference fingerprint of some prefix of the client's frame history between the request's own HEADERS and the frames written before the back-end saw it; every value of the priority-frame limit through the real flag; no fingerprint on HTTP/1.1 connections.",
    note="Generator stays inside sequences the server accepts (distinct SETTINGS ids: the server deliberately hangs up on duplicates). WU compared numerically except the absent case. Upper bound of the admissible prefix set is 'frames written', a sound over-approximation of 'frames processed'.", ref="7/C03"),
+ "C06": dict(cat="exploration", tech="deterministic simulation of N overlapping connections; per-tag attribution oracle against per-connection reference values",
+   text="2-8 clients with pairwise different hellos and HTTP/2 preambles, same/different peer addresses, keep-alive and multiplexed requests, resets and early closes, handlers overlapping through a yielding injector; every request's JA3 / JA4 / HTTP/2 fingerprint / X-Forwarded-For at the back-end must be its own connection's reference value.",
+   note="Uniqueness of hellos is forced by a marker cipher per client. Reference values as in C01-C03.", ref="7/C06"),
  "C07": dict(cat="exploration", tech="deterministic simulation (handlers parked at a yielding injector while frames arrive) + race detector inside single-quantum coalesced runs",
    text="(a) snapshot clause: up to 8 concurrently open streams whose handlers are parked before the real injector while further SETTINGS/WINDOW_UPDATE/PRIORITY/HEADERS arrive one TLS write at a time, released in any order; each fingerprint must be the fingerprint of one prefix in the request's interval (single sequential writer: linearizability of the reads reduces to interval membership, so porcupine is not needed). (b) race clause: a -race build of the same worker runs the sessions coalesced into one delivery without fences so capture and Marshal fall into one quantum where the detector sees them; reports whose stacks touch processFrame capture / metadata / fingerprint count.",
    note="Cooperative scheduling cannot create a schedule point between the two field updates of one HEADERS-with-priority capture; only the race detector speaks to tearing inside one capture. Race runs are not replayable as schedules (the -race runtime randomises the scheduler); the report itself is the artefact.", ref="7/C07"),
